@@ -64,7 +64,7 @@ func regBody(code string) func(e *schedmc.Env) {
 
 type c01cfg struct {
 	n, r, table int
-	pre         string // "absent" | "present" | "multitable" | "emptyfrag"
+	pre         string // "absent" | "present" | "multitable" | "sealed" | "emptyfrag"
 	bg          string // "" | "janitor" | "compaction"
 }
 
@@ -78,6 +78,7 @@ func c01Programs(tier string) []*schedmc.Program {
 	cfgs := []c01cfg{
 		{2, 1, 1 << 16, "absent", ""},
 		{3, 2, 128, "multitable", ""},
+		{2, 1, 128, "sealed", ""},
 	}
 	if !quick {
 		cfgs = append(cfgs, c01cfg{1, 1, 1 << 16, "present", ""}, c01cfg{2, 2, 128, "multitable", ""}, c01cfg{3, 3, 200, "multitable", ""}, c01cfg{3, 1, 1 << 16, "present", ""})
@@ -114,9 +115,22 @@ func c01Programs(tier string) []*schedmc.Program {
 					return n >= 5
 				})
 				kv.Put(p.Key, []byte("v0"), simcluster.PutOpt{})
+			case "sealed":
+				// k's only version sits in an older, sealed table: neighbours written afterwards have
+				// moved the fragment on to newer tables and k is not rewritten
+				part := cl.PartID(p.DMap, p.Key)
+				kv.Put(p.Key, []byte("v0"), simcluster.PutOpt{})
+				n := 0
+				cl.FindKey("f", func(k string) bool {
+					if cl.PartID(p.DMap, k) == part {
+						kv.Put(k, []byte("fill-fill-fill"), simcluster.PutOpt{})
+						n++
+					}
+					return n >= 5
+				})
 			}
 		}
-		if cf.pre == "present" || cf.pre == "multitable" {
+		if cf.pre == "present" || cf.pre == "multitable" || cf.pre == "sealed" {
 			init = "v0"
 		}
 		for i, e := range ents {
